@@ -26,6 +26,7 @@ func init() {
 }
 
 func runC20(c *eng.Ctx) {
+	defer runC20OOO(c)
 	p := c.P
 	// ---- R1 serialisation with compaction, fan-out to all holders of the data, durability before ack ----
 	{
